@@ -466,6 +466,28 @@ theorem delegation_fresh (f : List ℝ → ℝ) (w : W ℝ) (e : Entry ℝ) (how
     (update_spec f ({ w with fn := fn1 } : W ℝ) pl o1 o2 hsy hnd _ rfl hret).2.2.1.c1
   exact ⟨by rw [this.1, hc1], this.2, hc1⟩
 
+/-- `delegation_flags`: whatever happened before (flags toggled, earlier calls raised), after an
+entry point that returns the analytical first-order derivatives of a first-order derivable wrapped
+function are switched on iff the wrapper's first-order derivatives are on: delegation does not
+raise "not computed" -/
+theorem delegation_flags (f : List ℝ → ℝ) (w : W ℝ) (e : Entry ℝ) (hk : w.fn.kind ≥ 1)
+    (hret : (w.call f e).2.1 = none) :
+    (w.call f e).1.fn.en1 = w.c1 := by
+  have hfk : (w.fn.forward f e).1.kind = w.fn.kind := by
+    rcases forward_shape f w.fn e with h | ⟨own, h⟩ <;> rw [h] <;> rfl
+  unfold W.call at hret ⊢
+  rcases hfw : w.fn.forward f e with ⟨fn1, x, b⟩
+  rw [hfw] at hret hfk
+  cases x with
+  | some x => simp at hret
+  | none =>
+    simp only [] at hret hfk ⊢
+    split at hret
+    · simp at hret
+    · rename_i pl hl
+      simp only [] at hret ⊢
+      exact update_flags f ({ w with fn := fn1 } : W ℝ) pl (by simpa [hfk] using hk) hret
+
 /-- end to end: after such a call with first-order derivatives on, the derivative the wrapper
 hands out for a non-selected parameter of the wrapped function is the analytical one at the
 requested point -/
